@@ -153,8 +153,15 @@ class EstimCase:
         elif op.get('order') == 'perm':
             rng = stream(op['order_seed'], 'perm')
             rng.shuffle(leaves)
+        if op.get('recycle') and self._lists.get('last') is not None:
+            # the client's one list object, overwritten in place
+            obj = self._lists['last']
+            obj[:] = leaves
+            leaves = obj
+            self.cov.inc('probe.list_object_recycled_with_other_content')
         if op.get('share'):
             self._lists[key] = leaves
+        self._lists['last'] = leaves
         return leaves
 
     def call(self, site, fn):
@@ -728,6 +735,8 @@ def gen_run(seed, params):
             if share:
                 op['share'] = True
                 op['order'] = 'canon' if op['order'] == 'perm' else op['order']
+            elif hrng.random() < 0.7:
+                op['recycle'] = True
             if hrng.random() < 0.3:
                 op['pool_first'] = True
             if not first and hrng.random() < 0.6:
